@@ -18,7 +18,7 @@ func init() {
 	register(&run.Check{
 		ID:    "C02",
 		Level: "model_checking",
-		Rule: "bounded-exhaustive: every attribute list of length <=2 (thorough 3) over a 24-attribute alphabet on every policy, and one level deeper on two element classes with every fifth generated policy, (allowed / disallowed / duplicated / unquoted / single-quoted / valueless / entity-encoded / data-* shapes) on six element classes, as start and self-closing tags, " +
+		Rule: "bounded-exhaustive: every attribute list of length <=2 (thorough 3) over a 24-attribute alphabet on every policy, and one level deeper on three element classes with every fifth generated policy, (allowed / disallowed / duplicated / unquoted / single-quoted / valueless / entity-encoded / data-* shapes) on six element classes, as start and self-closing tags, " +
 			"crossed with a generated slice of policies that crosses rule scope (element / element-pattern / global) x value pattern yes/no x overlapping second rule x AllowNoAttrs x data attributes, plus named policies with forced attributes and style rules; " +
 			"plus the generic fragment layers. Oracle: every attribute of every output tag (tokenizer and DOM) is justified by a rule of the spec view, a well-formed data-* name, a governed style attribute or a forced attribute; a tag with no attribute must be bare-allowed. " +
 			"non-trivial = the input tag carried at least one attribute that was removed or the tag was dropped.",
@@ -212,7 +212,7 @@ func judgeC02(v *spec.View, in, out string, dom bool) (sig, what string) {
 
 var c02Attrs = []string{
 	` id=abc`, ` id=123`, ` id="a b"`, ` id=""`, ` id`, ` ID=abc`, ` id='abc'`, ` id="&#97;bc"`, ` id="abc&#10;x"`,
-	` title=t`, ` title="<x>"`, ` onclick=x`, ` name=n`,
+	` title=t`, ` title="<x>"`, ` onclick=x`, ` name=n`, ` name=7`,
 	` data-x=1`, ` data-xmlfoo=1`, ` data-x;=1`, ` data-data-;x=1`, ` data-a"b<c=1`, ` data-=1`, ` data-data-xmlq=1`,
 	` style="color:red"`, ` href="javascript:x"`, ` href=/ok`, ` lang=en`,
 }
@@ -317,13 +317,14 @@ func runC02(c *run.Ctx) {
 	if !c.Quick() {
 		kA = 3
 	}
-	for _, el := range c02Elements {
-		for _, sc := range []string{">", "/>"} {
-			SeqsS(c, el+sc, c02Attrs, 0, kA, func(attrs []byte, idx []int) {
+	// (elements and tag forms vary fastest, so that consecutive executions on one policy object mix element classes)
+	SeqsS(c, "c02A", c02Attrs, 0, kA, func(attrs []byte, idx []int) {
+		for _, el := range c02Elements {
+			for _, sc := range []string{">", "/>"} {
 				eval(bs, []byte("<"+el+string(attrs)+sc+"t</"+el+">"), len(idx) <= 1)
-			})
+			}
 		}
-	}
+	})
 	// layer B: one level deeper on the explicit and the pattern element, every fifth generated policy plus the named ones
 	var fifth []built
 	for i := range bs {
@@ -331,11 +332,11 @@ func runC02(c *run.Ctx) {
 			fifth = append(fifth, bs[i])
 		}
 	}
-	for _, el := range []string{"span", "my-x"} {
-		SeqsS(c, el+">", c02Attrs, kA+1, kA+1, func(attrs []byte, idx []int) {
+	SeqsS(c, "c02B", c02Attrs, kA+1, kA+1, func(attrs []byte, idx []int) {
+		for _, el := range []string{"span", "my-x", "my-y"} {
 			eval(fifth, []byte("<"+el+string(attrs)+">t</"+el+">"), false)
-		})
-	}
+		}
+	})
 	// generic fragment layer with a few policies
 	gs := pick(bs, "ugc", "attrs", "links", "media", "styles", "cmd-email", "pattern-bare")
 	kk := 2
